@@ -98,6 +98,7 @@ static void fk_untrack(void * p)
 		if (fk_blks[i].p == p) { fk_blks[i] = fk_blks[--fk_nblks]; return; }
 }
 size_t fk_live_blocks(void) { return fk_nblks; }
+int fk_is_live(const void * p) { size_t i; for (i = 0; i < fk_nblks; i++) if (fk_blks[i].p == p) return 1; return 0; }
 static int fk_refuse(void)
 {
 	fk_alloc_count++;
